@@ -68,6 +68,21 @@ Fixpoint dedup (l : list A) : list A :=
 End Lists.
 Arguments list_eqb {A}. Arguments memb {A}. Arguments dedup {A}.
 
+(* l[i] = x (the list is left alone when i is out of range) *)
+Fixpoint set_nth {A : Type} (i : nat) (x : A) (l : list A) : list A :=
+  match l, i with
+  | [], _ => []
+  | _ :: r, O => x :: r
+  | y :: r, S j => y :: set_nth j x r
+  end.
+
+Fixpoint forall2b {A B : Type} (p : A -> B -> bool) (a : list A) (b : list B) : bool :=
+  match a, b with
+  | [], [] => true
+  | x :: r, y :: s => p x y && forall2b p r s
+  | _, _ => false
+  end.
+
 Fixpoint mapM {A B : Type} (f : A -> option B) (l : list A) : option (list B) :=
   match l with
   | [] => Some []
@@ -311,11 +326,119 @@ Definition spec_aggregate (names : list name) (rows : list (list val)) keycols r
       end
   end.
 
+(* ---------- sessions: objects with identity, used more than once, mutated in between ----------
+   A DataFrame is an object whose row list grows by append() and whose generator is spent by
+   the first scan; a GroupBy is an object that refers to its frame (it does not copy it), keeps
+   its key columns, and has an attribute self._group_keys that outlives the call.  Since
+   5771d3f (F-C12-5) every pass of _map starts by emptying it (group_by.py:92-94, after the
+   index lookups that may raise ValueError), so what the object holds afterwards is the
+   bookkeeping of the last pass.  [gb_aggregate] / [gb_groups] are aggregate / groups as
+   methods of such an object: they take what the object holds ([memo]) and return what it
+   holds afterwards. *)
+Definition gkmemo := list (key * list (name * val)).
+
+Definition gb_aggregate (memo : gkmemo) (f : frame) (keycols : list name) (reqs : list (func * name))
+  : result (list (list (lab * cell))) * frame * gkmemo :=
+  let names := fnames f in
+  let ccols := collect_indices names (fromkeys (map snd reqs)) in
+  match group_indices names keycols with
+  | None => (Raise ValueError, f, memo)          (* raised before self._group_keys is emptied *)
+  | Some gidx =>
+      let '(rows, f') := iterate f in
+      let gk := fold_left (gk_step names gidx) rows [] in      (* self._group_keys = {} ; then the pass *)
+      let cvm := collect_all (emissions gidx ccols rows) in
+      match apply_all reqs cvm with
+      | None => (Raise TypeError, f', gk)
+      | Some ad => (Ok (map (result_row reqs gk) ad), f', gk)
+      end
+  end.
+
+Definition gb_groups (memo : gkmemo) (f : frame) (keycols : list name)
+  : result (list (list (lab * cell))) * frame * gkmemo :=
+  let names := fnames f in
+  match group_indices names keycols with
+  | None => (Raise ValueError, f, memo)
+  | Some gidx =>
+      let '(rows, f') := iterate f in
+      let gk := fold_left (gk_step names gidx) rows [] in
+      (Ok (map (fun g => dict_of lab_eqb (map (fun kv => (LKey (fst kv), CVal (snd kv))) (snd g))) gk), f', gk)
+  end.
+
+(* the heap: frames and GroupBy objects, addressed by position (creation order) *)
+Record gbobj := mkgb { gframe : nat; gcols : list name; gmemo : gkmemo }.
+Record heap := mkheap { hframes : list frame; hgbs : list gbobj }.
+
+Inductive op :=
+| OAppend (f : nat) (row : list val)              (* df.append(row) *)
+| OMaterialize (f : nat)                          (* df.rowcount (materialises; observes the count) *)
+| OGroupBy (f : nat) (keycols : list name)        (* df.group_by(keycols): a new GroupBy object *)
+| OAggregate (g : nat) (reqs : list (func * name))  (* gb.aggregate(reqs) on an existing object *)
+| OGroups (g : nat).                              (* gb.groups() on an existing object *)
+
+Inductive out :=
+| OutUnit                        (* nothing to observe *)
+| OutAttrError                   (* append on a generator-backed frame: 'generator' has no append *)
+| OutBadRef                      (* the session names an object that does not exist (never generated) *)
+| OutCount (n : nat)
+| OutRes (r : result (list (list (lab * cell)))).
+
+Definition step (h : heap) (o : op) : heap * out :=
+  match o with
+  | OAppend i row =>
+      match nth_error (hframes h) i with
+      | None => (h, OutBadRef)
+      | Some f =>
+          if flazy f then (h, OutAttrError)
+          else (mkheap (set_nth i (mkframe (fnames f) (frows f ++ [row]) false) (hframes h)) (hgbs h), OutUnit)
+      end
+  | OMaterialize i =>
+      match nth_error (hframes h) i with
+      | None => (h, OutBadRef)
+      | Some f => (mkheap (set_nth i (mkframe (fnames f) (frows f) false) (hframes h)) (hgbs h),
+                   OutCount (rowcount f))
+      end
+  | OGroupBy i keycols => (mkheap (hframes h) (hgbs h ++ [mkgb i keycols []]), OutUnit)
+  | OAggregate g reqs =>
+      match nth_error (hgbs h) g with
+      | None => (h, OutBadRef)
+      | Some gb =>
+          match nth_error (hframes h) (gframe gb) with
+          | None => (h, OutBadRef)
+          | Some f =>
+              let '(r, f', memo') := gb_aggregate (gmemo gb) f (gcols gb) reqs in
+              (mkheap (set_nth (gframe gb) f' (hframes h))
+                      (set_nth g (mkgb (gframe gb) (gcols gb) memo') (hgbs h)), OutRes r)
+          end
+      end
+  | OGroups g =>
+      match nth_error (hgbs h) g with
+      | None => (h, OutBadRef)
+      | Some gb =>
+          match nth_error (hframes h) (gframe gb) with
+          | None => (h, OutBadRef)
+          | Some f =>
+              let '(r, f', memo') := gb_groups (gmemo gb) f (gcols gb) in
+              (mkheap (set_nth (gframe gb) f' (hframes h))
+                      (set_nth g (mkgb (gframe gb) (gcols gb) memo') (hgbs h)), OutRes r)
+          end
+      end
+  end.
+
+Fixpoint run (h : heap) (ops : list op) : heap * list out :=
+  match ops with
+  | [] => (h, [])
+  | o :: r => let '(h1, x) := step h o in let '(h2, xs) := run h1 r in (h2, x :: xs)
+  end.
+
 End GroupBy.
 
 Arguments VNull {K}. Arguments VInt {K}. Arguments VOth {K}. Arguments VStar {K}.
 Arguments CVal {K}. Arguments CRat {K}.
 Arguments mkframe {K}. Arguments fnames {K}. Arguments frows {K}. Arguments flazy {K}.
+Arguments mkgb {K}. Arguments gframe {K}. Arguments gcols {K}. Arguments gmemo {K}.
+Arguments mkheap {K}. Arguments hframes {K}. Arguments hgbs {K}.
+Arguments OAppend {K}. Arguments OMaterialize {K}. Arguments OGroupBy {K}. Arguments OAggregate {K}. Arguments OGroups {K}.
+Arguments OutUnit {K}. Arguments OutAttrError {K}. Arguments OutBadRef {K}. Arguments OutCount {K}. Arguments OutRes {K}.
 
 (* ================= correspondence instance ================= *)
 (* non-integer key cells the harness produces: floats (by bit pattern) and text *)
@@ -404,6 +527,64 @@ Definition c12_show_groups (c : grp_case) :=
   let '(res, f') := groups kc kc_eqb (mkframe names rows lz) keycols in
   (match res with Ok rs => Ok (let '(h, r) := to_frame kc rs in (map render h, r)) | Raise e => Raise e end,
    rowcount kc f').
+
+(* ---------- sessions (object identity, reuse, mutation in between) ---------- *)
+Inductive sobs :=
+| SUnit | SAttrError | SOtherError
+| SCount (n : Z)
+| SRaise (e : oexn)
+| SFrame (hdr : list name) (rows : list (list (cell kc))).
+
+Definition sout_match (m : out kc) (o : sobs) : bool :=
+  match m, o with
+  | OutUnit, SUnit => true
+  | OutAttrError, SAttrError => true
+  | OutCount n, SCount z => Z.eqb (Z.of_nat n) z
+  | OutRes (Raise e), SRaise oe => exn_match e oe
+  | OutRes (Ok rs), SFrame hdr rows =>
+      let '(mh, mrows) := to_frame kc rs in
+      list_eqb name_eqb (map render mh) hdr && list_eqb (list_eqb cell_match) mrows rows
+  | _, _ => false
+  end.
+
+(* a session: (initial frames as (lazy?, column names, rows), operations, one observation per
+   operation, rowcount of every frame at the end) *)
+Definition session_case :=
+  (list (bool * list name * list (list (val kc))) * list (op kc) * list sobs * list Z)%type.
+Definition session_heap (frs : list (bool * list name * list (list (val kc)))) : heap kc :=
+  mkheap (map (fun t => let '(lz, names, rows) := t in mkframe names rows lz) frs) [].
+Definition c12_check_session (c : session_case) : bool :=
+  let '(frs, ops, os, final) := c in
+  let '(h, outs) := run kc kc_eqb (session_heap frs) ops in
+  forall2b sout_match outs os
+  && list_eqb Z.eqb (map (fun f => Z.of_nat (rowcount kc f)) (hframes h)) final.
+Definition show_out (m : out kc) :=
+  match m with
+  | OutRes (Ok rs) => OutRes (Ok (let '(h, r) := to_frame kc rs in [map (fun l => (l, CVal VNull)) h]
+                                   ++ map (map (fun c => (LKey [], c))) r))
+  | x => x
+  end.
+Definition c12_show_session (c : session_case) :=
+  let '(frs, ops, os, final) := c in
+  let '(h, outs) := run kc kc_eqb (session_heap frs) ops in
+  (map show_out outs, map (rowcount kc) (hframes h)).
+
+(* the column names the session generator uses, as constants (a name literal costs ~0.3 ms of
+   type-checking each and a session repeats them in every operation); tools/props/C12.py checks
+   on load that each constant is the literal it stands for *)
+Definition n_k1 : name := [107; 49]%N.
+Definition n_k2 : name := [107; 50]%N.
+Definition n_v : name := [118]%N.
+Definition n_w : name := [119]%N.
+Definition n_star : name := [42]%N.
+Definition n_zz : name := [122; 122]%N.
+Definition n_nope : name := [110; 111; 112; 101]%N.
+
+Definition oapp (f : nat) (row : list (val kc)) : op kc := OAppend f row.
+Definition omat (f : nat) : op kc := OMaterialize f.
+Definition ogb (f : nat) (keycols : list name) : op kc := OGroupBy f keycols.
+Definition oagg (g : nat) (reqs : list (func * name)) : op kc := OAggregate g reqs.
+Definition ogrp (g : nat) : op kc := OGroups g.
 
 (* short constructors for the generated case files *)
 Definition vn : val kc := VNull.
